@@ -2,6 +2,7 @@ package main
 
 import (
 	"bytes"
+	"errors"
 	"fmt"
 	"github.com/mmcloughlin/avo/pass"
 	"github.com/mmcloughlin/avo/printer"
@@ -396,7 +397,7 @@ type buildRec struct {
 }
 
 func c06(c *Ctx) {
-	var history []buildRec
+	var history, rejected []buildRec
 	naliased := 0
 	defer refilledSliceCheck(c)
 	nreplayed := 0
@@ -521,6 +522,9 @@ func c06(c *Ctx) {
 					ops[0] = saved
 				}
 				history = append(history, buildRec{name, opc, ci.Suffixes, ops, instrSig(obs)})
+				if obs == nil && len(rejected) < 60 {
+					rejected = append(rejected, buildRec{name, opc, ci.Suffixes, ops, ""})
+				}
 				caseRows = append(caseRows, fmt.Sprintf("(%d, %s, %s, %s)", opc, cStrs(ci.Suffixes), cOperands(ops), cOptInstr(obs)))
 				o.AddCase(Case{Key: "ctor:" + kind + ":" + name, Desc: fmt.Sprintf("%s%v -> %s", name, opsText(ops), map[bool]string{true: "accepted", false: "rejected"}[obs != nil]), Input: map[string]any{"ctor": name, "operands": opsText(ops)}, Nontrivial: true})
 				ncases++
@@ -590,6 +594,31 @@ func c06(c *Ctx) {
 		}
 		nreplayed += len(history)
 		history = history[:0]
+		// the refused requests of the shard once more, all through one Context (and, as it happens, from one line
+		// of this harness): each of them is reported, none adds an instruction
+		{
+			ctx, cv := ctxVal()
+			n := 0
+			for _, h := range rejected {
+				m := cv.MethodByName(h.name)
+				if !m.IsValid() || !(m.Type().NumIn() == len(h.ops) || m.Type().IsVariadic()) {
+					continue
+				}
+				args := make([]reflect.Value, len(h.ops))
+				for k := range h.ops {
+					args[k] = reflect.ValueOf(&h.ops[k]).Elem()
+				}
+				m.Call(args)
+				n++
+			}
+			f, err := ctx.Result()
+			var el build.ErrorList
+			errors.As(err, &el)
+			if n > 0 && (len(el) != n || len(f.Functions()[0].Instructions()) != 0) {
+				o.Plan.GoViolations = append(o.Plan.GoViolations, GoViolation{Key: "ctor:refusals-in-one-context", Desc: fmt.Sprintf("%d requests that are each refused on their own were made through one Context (first: %s%v): %d errors are reported and %d instructions were added", n, rejected[0].name, opsText(rejected[0].ops), len(el), len(f.Functions()[0].Instructions())), Replay: map[string]any{"requests": n, "first": rejected[0].name}})
+			}
+			rejected = rejected[:0]
+		}
 		fname := fmt.Sprintf("Cases%02d.v", s)
 		var b strings.Builder
 		b.WriteString(formsHeader)
